@@ -3161,4 +3161,737 @@ theorem progress_of_progressB {cfg : Sites} {p : Bytes} (h : progressB cfg p = t
   | nil => exact absurd rfl hne
   | cons a l => simpa [hn] using this
 
+
+/-! ## Part 5: JSON round trip -/
+
+def JOuts.toList : JOuts → List JOut
+  | .nil => []
+  | .cons j r => j :: r.toList
+
+def JIns.toList : JIns → List JIn
+  | .nil => []
+  | .cons j r => j :: r.toList
+
+theorem JOuts.toList_insert (j : JOut) : ∀ l : JOuts, (JOuts.insert j l).toList.Perm (j :: l.toList)
+  | .nil => by simp [JOuts.insert, JOuts.toList]
+  | .cons j' r => by
+    simp only [JOuts.insert]
+    split
+    · simp [JOuts.toList]
+    · simp only [JOuts.toList]
+      exact ((JOuts.toList_insert j r).cons j').trans (List.Perm.swap j j' r.toList)
+
+theorem JOuts.toList_sort : ∀ l : JOuts, l.sort.toList.Perm l.toList
+  | .nil => by simp [JOuts.sort, JOuts.toList]
+  | .cons j r => by
+    simp only [JOuts.sort, JOuts.toList]
+    exact (JOuts.toList_insert j r.sort).trans ((JOuts.toList_sort r).cons j)
+
+theorem JOuts.toList_sortedKids : ∀ l : JOuts, (JOuts.sortedKids l).toList = l.toList.map JOut.sorted
+  | .nil => by simp [JOuts.sortedKids, JOuts.toList]
+  | .cons j r => by simp [JOuts.sortedKids, JOuts.toList, JOuts.toList_sortedKids r]
+
+theorem JOuts.toList_toIns : ∀ l : JOuts, (JOuts.toIns l).toList = l.toList.map JOut.toIn
+  | .nil => by simp [JOuts.toIns, JOuts.toList, JIns.toList]
+  | .cons j r => by simp [JOuts.toIns, JOuts.toList, JIns.toList, JOuts.toList_toIns r]
+
+/-- the JSON children of one node, as the unmarshaller receives them -/
+theorem toList_wire (J : JOuts) : (JOuts.toIns (JOuts.sortedKids J).sort).toList.Perm (J.toList.map fun j => j.sorted.toIn) := by
+  rw [JOuts.toList_toIns]
+  have := (JOuts.toList_sort (JOuts.sortedKids J)).map JOut.toIn
+  rw [JOuts.toList_sortedKids, List.map_map] at this
+  exact this
+
+
+/-- the step a child path decodes to, by the parent's loop (`kind` 0 = Struct, 1 = List/IntMap, 2 = StrMap) -/
+def stepOfKind (kind : Nat) (raw : JRaw) : Option PStep :=
+  match kind with
+  | 0 => raw.i32.map PStep.field
+  | 1 => raw.int.map PStep.idx
+  | 2 => raw.str.map PStep.key
+  | _ => none
+
+/-- the `head[f]` guard, which only the Struct loop passes through -/
+def preOfKind (cfg : Sites) (kind : Nat) (k : PStep) : Res Unit :=
+  match kind, k with
+  | 0, .field id => siteHead cfg id
+  | _, _ => .ok ()
+
+theorem transferKids_cons {cfg : Sites} {kind : Nat} {self : Mask} {n : JIn} {r : JIns} {k : PStep}
+    (hany : n.path.isAny = false) (hk : stepOfKind kind n.path = some k) :
+    transferKids cfg kind self (.cons n r) = (do
+      preOfKind cfg kind k
+      let child' ← transferFrom cfg (self.kidChild k n.typ self.isBlack) n
+      transferKids cfg kind (self.putKid k child') r) := by
+  match kind, hk with
+  | 0, hk =>
+    simp only [stepOfKind, Option.map_eq_some_iff] at hk
+    obtain ⟨id, hid, rfl⟩ := hk
+    rw [transferKids]
+    simp only [hany, Bool.false_eq_true, ↓reduceIte, hid, preOfKind]
+    rfl
+  | 1, hk =>
+    simp only [stepOfKind, Option.map_eq_some_iff] at hk
+    obtain ⟨id, hid, rfl⟩ := hk
+    rw [transferKids]
+    simp only [hany, Bool.false_eq_true, ↓reduceIte, hid, preOfKind, Res.ok_bind]
+    rfl
+  | 2, hk =>
+    simp only [stepOfKind, Option.map_eq_some_iff] at hk
+    obtain ⟨id, hid, rfl⟩ := hk
+    rw [transferKids]
+    simp only [hany, Bool.false_eq_true, ↓reduceIte, hid, preOfKind, Res.ok_bind]
+    rfl
+  | k + 3, hk => simp [stepOfKind] at hk
+
+
+/-- receiver of `TransferFrom`: nothing hangs below it yet -/
+def Mask.Recv (m : Mask) : Prop := m.isAll = false ∧ m.all = .none ∧ m.NoKids
+
+/-- what the round-trip proof knows about one JSON child `n` of a node of type `ft`: it decodes to the
+specific step `k`, and transferring it onto an empty receiver yields a node representing `T` -/
+structure NodeOK (cfg : Sites) (sch : Schema) (black : Bool) (d : Ty) (ft : Ft) (kind : Nat)
+    (n : JIn) (k : PStep) (T : List APath) : Prop where
+  notAny : n.path.isAny = false
+  step : stepOfKind kind n.path = some k
+  spec : k.isStar = false
+  kindok : kindOK ft k = true
+  pre : preOfKind cfg kind k = .ok ()
+  cu : ∃ cu, stepCur sch ft d k = some cu ∧ n.typ = cu.1 ∧ T ≠ [] ∧
+        ∀ recv : Mask, recv.Recv → ∃ c', transferFrom cfg recv n = .ok c' ∧ Rep sch black cu.2 c' T ∧ c'.typ = n.typ
+
+theorem Fresh.recv {black : Bool} {m : Mask} (h : m.Fresh black) : m.Recv := ⟨h.1, h.2.1, h.2.2.2⟩
+
+theorem transferKids_rep {cfg : Sites} {sch : Schema} {black : Bool} {d : Ty} {kind : Nat} (info : JIn → PStep × List APath) :
+    ∀ (js : JIns) (self : Mask) (Pacc : List APath),
+      RepF sch black d self Pacc → AllSpec Pacc → self.typ ≠ .invalid →
+      (∀ n ∈ js.toList, NodeOK cfg sch black d self.typ kind n (info n).1 (info n).2) →
+      (∀ n ∈ js.toList, tailsOf (info n).1 Pacc = []) →
+      js.toList.Pairwise (fun a b => (info a).1 ≠ (info b).1) →
+      ∃ m', transferKids cfg kind self js = .ok m' ∧
+        RepF sch black d m' (Pacc ++ js.toList.flatMap (fun n => (info n).2.map ((info n).1 :: ·))) ∧
+        m'.typ = self.typ
+  | .nil, self, Pacc, hm, _, _, _, _, _ => ⟨self, by simp [transferKids], by simpa [JIns.toList] using hm, rfl⟩
+  | .cons n r, self, Pacc, hm, hP, ht, hok, hfresh, hpw => by
+    have hn := hok n (by simp [JIns.toList])
+    obtain ⟨cu, hcu, hnt, hT, htr⟩ := hn.cu
+    have hb := hm.isBlack_eq
+    rw [transferKids_cons hn.notAny hn.step, hn.pre, Res.ok_bind]
+    obtain ⟨hcr, hct⟩ := child_RepF hm hP hn.spec hcu
+    rw [hfresh n (by simp [JIns.toList])] at hcr
+    obtain ⟨c', hc', hrc', htc'⟩ := htr _ (Fresh.recv hcr.fresh_of_nil)
+    rw [hnt, hb, hc', Res.ok_bind]
+    have hr1 := Rep_putKid (X := (info n).2) hm hP hn.spec ht hn.kindok hcu (by rw [htc', hnt])
+      (by rw [hfresh n (by simp [JIns.toList])]; simpa using hrc') hT
+    have hP1 : AllSpec (Pacc ++ (info n).2.map ((info n).1 :: ·)) := by
+      intro p hp
+      rw [List.mem_append] at hp
+      cases hp with
+      | inl h => exact hP p h
+      | inr h =>
+        rw [List.mem_map] at h
+        obtain ⟨x, _, rfl⟩ := h
+        exact ⟨_, x, rfl, hn.spec⟩
+    simp only [JIns.toList, List.pairwise_cons] at hpw
+    obtain ⟨m', hm', hr', ht'⟩ := transferKids_rep info r (self.putKid (info n).1 c') _ (Or.inr hr1) hP1
+      (by rw [Mask.putKid_typ]; exact ht)
+      (by intro n' hn'; rw [Mask.putKid_typ]; exact hok n' (by simp [JIns.toList, hn']))
+      (by
+        intro n' hn'
+        rw [tailsOf_append, hfresh n' (by simp [JIns.toList, hn'])]
+        have hne : (info n).1 ≠ (info n').1 := hpw.1 n' hn'
+        simp [tailsOf_map_other hne])
+      hpw.2
+    refine ⟨m', hm', ?_, by rw [ht', Mask.putKid_typ]⟩
+    simp only [JIns.toList, List.flatMap_cons]
+    rw [← List.append_assoc]
+    exact hr'
+
+
+theorem Kids.keys_eq_map : ∀ K : Kids, K.keys = K.toList.map (·.1)
+  | .nil => rfl
+  | .cons k m r => by simp [Kids.keys, Kids.toList, Kids.keys_eq_map r]
+
+theorem Kids.get_of_mem : ∀ {K : Kids} {k : Key} {c : Mask}, K.keys.Nodup → (k, c) ∈ K.toList → K.get k = .some c
+  | .nil, k, c, _, h => by simp [Kids.toList] at h
+  | .cons k' m r, k, c, hnd, h => by
+    simp only [Kids.keys, List.nodup_cons] at hnd
+    simp only [Kids.toList, List.mem_cons, Prod.mk.injEq] at h
+    rcases h with ⟨rfl, rfl⟩ | h
+    · simp [Kids.get]
+    · have hk : k' ≠ k := by
+        intro e; subst e
+        apply hnd.1
+        rw [Kids.keys_eq_map]
+        exact List.mem_map.mpr ⟨(k', c), h, rfl⟩
+      simp [Kids.get, hk, Kids.get_of_mem hnd.2 h]
+
+theorem Kids.mem_of_get : ∀ {K : Kids} {k : Key} {c : Mask}, K.get k = .some c → (k, c) ∈ K.toList
+  | .nil, k, c, h => by simp [Kids.get] at h
+  | .cons k' m r, k, c, h => by
+    simp only [Kids.get] at h
+    by_cases hk : k' = k
+    · simp [hk] at h; subst h; subst hk; simp [Kids.toList]
+    · simp [hk] at h
+      simp [Kids.toList, Kids.mem_of_get h]
+
+/-- `marshalRec` of a child, made total for use in statements -/
+def mkOf (c : Mask) : Bool × JOuts :=
+  match marshalKids c with
+  | .ok r => r
+  | _ => (false, .nil)
+
+def nodeOf (kc : Key × Mask) : JOut := .mk kc.1.toJPath kc.2.typ kc.2.isBlack (mkOf kc.2).1 (mkOf kc.2).2
+
+theorem marshalList_ok : ∀ (K : Kids), (∀ kc ∈ K.toList, kc.2.typ ≠ .invalid ∧ ∃ r, marshalKids kc.2 = .ok r) →
+    ∃ J, marshalList K = .ok J ∧ J.toList = K.toList.map nodeOf
+  | .nil, _ => ⟨.nil, by simp [marshalList], by simp [JOuts.toList, Kids.toList]⟩
+  | .cons k c r, h => by
+    obtain ⟨hc, rc, hrc⟩ := h (k, c) (by simp [Kids.toList])
+    obtain ⟨J, hJ, hJl⟩ := marshalList_ok r (fun kc hkc => h kc (by simp [Kids.toList, hkc]))
+    refine ⟨.cons (nodeOf (k, c)) J, ?_, by simp [JOuts.toList, Kids.toList, hJl]⟩
+    rw [marshalList]
+    have : (c.typ != .invalid) = true := by simpa using hc
+    simp only [this, ↓reduceIte, hrc, Res.ok_bind, hJ, nodeOf, mkOf]
+
+theorem tailsOf_flatMap_same {α} (kk : α → PStep) (T : α → List APath) :
+    ∀ (l : List α) (n : α), n ∈ l → l.Pairwise (fun a b => kk a ≠ kk b) →
+      tailsOf (kk n) (l.flatMap fun a => (T a).map (kk a :: ·)) = T n
+  | [], n, h, _ => by simp at h
+  | a :: l, n, h, hpw => by
+    simp only [List.pairwise_cons] at hpw
+    simp only [List.flatMap_cons, tailsOf_append]
+    rcases List.mem_cons.mp h with rfl | h
+    · rw [tailsOf_map_same]
+      have : tailsOf (kk n) (l.flatMap fun a => (T a).map (kk a :: ·)) = [] := by
+        clear h
+        induction l with
+        | nil => rfl
+        | cons b l ih =>
+          simp only [List.flatMap_cons, tailsOf_append]
+          rw [tailsOf_map_other (Ne.symm (hpw.1 b (by simp))), ih]
+          · rfl
+          · exact ⟨fun x hx => hpw.1 x (by simp [hx]), (List.pairwise_cons.mp hpw.2).2⟩
+      rw [this, List.append_nil]
+    · rw [tailsOf_map_other (hpw.1 n h), tailsOf_flatMap_same kk T l n h hpw.2, List.nil_append]
+
+theorem tailsOf_flatMap_other {α} (kk : α → PStep) (T : α → List APath) (k : PStep) :
+    ∀ (l : List α), (∀ a ∈ l, kk a ≠ k) → tailsOf k (l.flatMap fun a => (T a).map (kk a :: ·)) = []
+  | [], _ => rfl
+  | a :: l, h => by
+    simp only [List.flatMap_cons, tailsOf_append]
+    rw [tailsOf_map_other (h a (by simp)), tailsOf_flatMap_other kk T k l (fun b hb => h b (by simp [hb]))]
+    rfl
+
+/-- `Rep` only looks at the path list through `tailsOf` -/
+theorem Rep.congr_spec {sch black d m L P} (h : Rep sch black d m L) (hL : AllSpec L) (hP : AllSpec P) (hne : P ≠ [])
+    (ht : ∀ k, k.isStar = false → tailsOf k L = tailsOf k P) : Rep sch black d m P := by
+  obtain ⟨hia, hhc, hfd, hno, hyes, hrec, hkind, hnd⟩ := h.spec_inv hL
+  refine Rep.spec h.typ_ne h.isBlack_eq hne hP hia hhc hfd ?_ hnd ?_ ?_ ?_
+  · intro k hk htl; rw [← ht k hk] at htl; exact hkind k hk htl
+  · intro k hk htl; rw [← ht k hk] at htl; exact hno k hk htl
+  · intro k hk htl; rw [← ht k hk] at htl; exact hyes k hk htl
+  · intro k c cu hkid hcu htl
+    have hk : k.isStar = false := by
+      cases hs : k.isStar with
+      | false => rfl
+      | true =>
+        exfalso
+        obtain ⟨typ, isAll, isBlack, all, fdA, fd, intA, ints, strA, strs⟩ := m
+        cases k <;> simp_all [PStep.isStar, Mask.kid]
+    rw [← ht k hk] at htl ⊢
+    exact hrec k c cu hkid hcu htl
+
+
+theorem JsonSafe_tailsOf {cfg : Sites} {P : List APath} (k : PStep) (h : JsonSafe cfg P = true) :
+    JsonSafe cfg (tailsOf k P) = true := by
+  unfold JsonSafe at *
+  rw [List.all_eq_true] at *
+  intro t ht
+  have := h _ (mem_tailsOf.mp ht)
+  simp only [List.all_cons, Bool.and_eq_true] at this
+  exact this.2
+
+theorem JsonSafe_head {cfg : Sites} {P : List APath} {k : PStep} (h : JsonSafe cfg P = true) (hne : tailsOf k P ≠ []) :
+    jsonSafeStep cfg k = true := by
+  cases hl : tailsOf k P with
+  | nil => exact absurd hl hne
+  | cons t l =>
+    have hm : t ∈ tailsOf k P := by rw [hl]; simp
+    unfold JsonSafe at h
+    rw [List.all_eq_true] at h
+    have := h _ (mem_tailsOf.mp hm)
+    simp only [List.all_cons, Bool.and_eq_true] at this
+    exact this.1
+
+theorem JsonSafe_map_tail {cfg : Sites} {P : List APath} (h : JsonSafe cfg P = true) :
+    JsonSafe cfg (P.map List.tail) = true := by
+  unfold JsonSafe at *
+  rw [List.all_eq_true] at *
+  intro t ht
+  rw [List.mem_map] at ht
+  obtain ⟨p, hp, rfl⟩ := ht
+  have := h p hp
+  cases p with
+  | nil => simp
+  | cons a l => simp only [List.all_cons, Bool.and_eq_true] at this; simpa using this.2
+
+/-- the statement proved by induction on `Rep`: marshalling the node succeeds and transferring the result
+onto any empty receiver gives a node that represents the same path set -/
+def RT (cfg : Sites) (sch : Schema) (black : Bool) (d : Ty) (m : Mask) (P : List APath) : Prop :=
+  JsonSafe cfg P = true →
+  ∃ r, marshalKids m = .ok r ∧ ∀ (self : Mask) (raw : JRaw), self.Recv →
+    ∃ m', transferFrom cfg self (.mk raw m.typ m.isBlack (JOuts.toIns (JOuts.sortedKids r.2).sort)) = .ok m' ∧
+      Rep sch black d m' P ∧ m'.typ = m.typ
+
+theorem allq_of_isAll {typ : Ft} {isAll : Bool} (h : isAll = true) :
+    (match typ with
+      | .struct | .list | .intMap | .strMap => isAll
+      | _ => true) = true := by
+  cases typ <;> simp [h]
+
+theorem RT_leaf {cfg sch black d m P} (ht : m.typ ≠ .invalid) (hb : m.isBlack = black) (hne : P ≠ [])
+    (hall : ∀ p ∈ P, p = []) (hia : m.isAll = true) (hal : m.all = .none) : RT cfg sch black d m P := by
+  intro _
+  obtain ⟨typ, isAll, isBlack, all, fdA, fd, intA, ints, strA, strs⟩ := m
+  simp only [Mask.typ, Mask.isAll, Mask.all, Mask.isBlack] at ht hb hia hal
+  subst hia; subst hal
+  refine ⟨(false, .nil), ?_, ?_⟩
+  · unfold marshalKids
+    cases typ <;> simp
+  · intro self raw hrecv
+    obtain ⟨styp, sisAll, sisBlack, sall, sfdA, sfd, sintA, sints, sstrA, sstrs⟩ := self
+    obtain ⟨h1, h2, h3⟩ := hrecv
+    refine ⟨Mask.mk typ true isBlack sall sfdA sfd sintA sints sstrA sstrs, ?_, ?_, ?_⟩
+    · simp only [JOuts.sortedKids, JOuts.sort, JOuts.toIns, Mask.typ, Mask.isBlack]
+      rw [transferFrom]
+      simp only [ht, ↓reduceIte]
+      rfl
+    · exact Rep.leaf ht hb hne hall rfl h2 h3
+    · rfl
+
+
+theorem Mask.zero_recv : Mask.zero.Recv := ⟨rfl, rfl, rfl, rfl, rfl, rfl, rfl, rfl⟩
+
+theorem transferKids_any {cfg : Sites} {kind : Nat} {self : Mask} {n : JIn} {r : JIns} (h : n.path.isAny = true) :
+    transferKids cfg kind self (.cons n r) = (do
+      let a ← transferFrom cfg Mask.zero n
+      .ok ((self.setIsAll true).setAllM (.some a))) := by
+  unfold transferKids
+  simp only [h, ↓reduceIte]
+
+theorem RT_star {cfg sch black d m P} (s : PStep) (a : Mask) (cu : Ft × Ty)
+    (ht : m.typ ≠ .invalid) (hb : m.isBlack = black) (hne : P ≠ []) (hs : s.isStar = true)
+    (hall : ∀ p ∈ P, ∃ t, p = s :: t) (hia : m.isAll = true) (hal : m.all = .some a) (_hnk : m.NoKids)
+    (hcu : stepCur sch m.typ d s = some cu) (hat : a.typ = cu.1)
+    (hr : Rep sch black cu.2 a (P.map List.tail)) (ih : RT cfg sch black cu.2 a (P.map List.tail)) :
+    RT cfg sch black d m P := by
+  intro hsafe
+  obtain ⟨ra, hma, htr⟩ := ih (JsonSafe_map_tail hsafe)
+  obtain ⟨typ, isAll, isBlack, all, fdA, fd, intA, ints, strA, strs⟩ := m
+  simp only [Mask.typ, Mask.isAll, Mask.all, Mask.isBlack] at ht hb hia hal hcu
+  subst hia; subst hal
+  have hane : (a.typ != .invalid) = true := by simpa using hr.typ_ne
+  refine ⟨(true, .cons (.mk .any a.typ a.isBlack ra.1 ra.2) .nil), ?_, ?_⟩
+  · unfold marshalKids
+    cases typ <;> simp [hane, hma]
+  · intro self raw hrecv
+    obtain ⟨a', ha', hra', hta'⟩ := htr Mask.zero JPath.any.toRaw Mask.zero_recv
+    obtain ⟨styp, sisAll, sisBlack, sall, sfdA, sfd, sintA, sints, sstrA, sstrs⟩ := self
+    obtain ⟨h1, h2, h3⟩ := hrecv
+    refine ⟨Mask.mk typ true isBlack (.some a') sfdA sfd sintA sints sstrA sstrs, ?_, ?_, rfl⟩
+    · simp only [JOuts.sortedKids, JOuts.sort, JOuts.insert, JOuts.toIns, JOut.sorted, JOut.toIn]
+      change transferFrom cfg _ (JIn.mk raw typ isBlack _) = _
+      rw [transferFrom]
+      simp only [ht, ↓reduceIte]
+      have hk : ∀ kind self, transferKids cfg kind self
+          (JIns.cons (JIn.mk JPath.any.toRaw a.typ a.isBlack (JOuts.toIns (JOuts.sortedKids ra.2).sort)) JIns.nil) =
+          .ok ((self.setIsAll true).setAllM (.some a')) := by
+        intro kind self
+        rw [transferKids_any (by rfl), ha', Res.ok_bind]
+      cases typ
+      · exact absurd rfl ht
+      all_goals (simp only [hk]; rfl)
+    · exact Rep.star s a' cu ht hb hne hs hall rfl rfl h3 hcu (by rw [hta', hat]) hra'
+
+
+/-- a child as it arrives at the unmarshaller -/
+def wireOf (kc : Key × Mask) : JIn :=
+  .mk kc.1.toJPath.toRaw kc.2.typ kc.2.isBlack (JOuts.toIns (JOuts.sortedKids (mkOf kc.2).2).sort)
+
+theorem wireOf_eq (kc : Key × Mask) : (nodeOf kc).sorted.toIn = wireOf kc := rfl
+
+theorem RT_spec_core {cfg : Sites} {sch : Schema} {black : Bool} {d : Ty} {m : Mask} {P : List APath}
+    (K : Kids) (kind : Nat) (stp : Key → PStep)
+    (ht : m.typ ≠ .invalid) (hb : m.isBlack = black) (hne : P ≠ []) (hall : AllSpec P)
+    (hkind : ∀ k, k.isStar = false → tailsOf k P ≠ [] → kindOK m.typ k = true)
+    (hKnd : K.keys.Nodup)
+    (hno : ∀ k, k.isStar = false → tailsOf k P = [] → m.kid k = .none)
+    (hyes : ∀ k, k.isStar = false → tailsOf k P ≠ [] →
+         ∃ c cu, m.kid k = .some c ∧ stepCur sch m.typ d k = some cu ∧ c.typ = cu.1)
+    (hrec : ∀ k c cu, m.kid k = .some c → stepCur sch m.typ d k = some cu → tailsOf k P ≠ [] →
+         Rep sch black cu.2 c (tailsOf k P))
+    (ih : ∀ k c cu, m.kid k = .some c → stepCur sch m.typ d k = some cu → tailsOf k P ≠ [] →
+         RT cfg sch black cu.2 c (tailsOf k P))
+    (hcell : ∀ key c, (key, c) ∈ K.toList → (stp key).isStar = false ∧ m.kid (stp key) = .some c ∧
+        (jsonSafeStep cfg (stp key) = true → stepOfKind kind key.toJPath.toRaw = some (stp key) ∧
+          key.toJPath.toRaw.isAny = false ∧ preOfKind cfg kind (stp key) = .ok ()))
+    (hinj : ∀ key key', key ∈ K.keys → key' ∈ K.keys → stp key = stp key' → key = key')
+    (hsurj : ∀ k, k.isStar = false → tailsOf k P ≠ [] → ∃ key c, (key, c) ∈ K.toList ∧ stp key = k)
+    (hmar : ∀ J, marshalList K = .ok J → marshalKids m = .ok (true, J))
+    (htf : ∀ (self : Mask) (raw : JRaw) (n : JIn) (r : JIns),
+        transferFrom cfg self (.mk raw m.typ m.isBlack (.cons n r)) =
+          transferKids cfg kind ((self.setTyp m.typ).setIsBlack m.isBlack) (.cons n r)) :
+    RT cfg sch black d m P := by
+  intro hsafe
+  -- every cell of the child map is a represented child
+  have hcells : ∀ kc ∈ K.toList, tailsOf (stp kc.1) P ≠ [] ∧ ∃ cu, stepCur sch m.typ d (stp kc.1) = some cu ∧
+      kc.2.typ = cu.1 ∧ Rep sch black cu.2 kc.2 (tailsOf (stp kc.1) P) ∧ RT cfg sch black cu.2 kc.2 (tailsOf (stp kc.1) P) := by
+    intro kc hkc
+    obtain ⟨hst, hkid, _⟩ := hcell kc.1 kc.2 hkc
+    have htl : tailsOf (stp kc.1) P ≠ [] := by
+      intro h
+      rw [hno _ hst h] at hkid
+      cases hkid
+    obtain ⟨c, cu, hkid', hcu, hct⟩ := hyes _ hst htl
+    rw [hkid] at hkid'
+    cases hkid'
+    exact ⟨htl, cu, hcu, hct, hrec _ _ _ hkid hcu htl, ih _ _ _ hkid hcu htl⟩
+  have hmk : ∀ kc ∈ K.toList, kc.2.typ ≠ .invalid ∧ ∃ r, marshalKids kc.2 = .ok r := by
+    intro kc hkc
+    obtain ⟨htl, cu, _, _, hr, hrt⟩ := hcells kc hkc
+    obtain ⟨r, hr', _⟩ := hrt (JsonSafe_tailsOf _ hsafe)
+    exact ⟨hr.typ_ne, r, hr'⟩
+  obtain ⟨J, hJ, hJl⟩ := marshalList_ok K hmk
+  refine ⟨(true, J), hmar J hJ, ?_⟩
+  intro self raw hrecv
+  -- the children on the wire
+  have hperm : (JOuts.toIns (JOuts.sortedKids J).sort).toList.Perm (K.toList.map wireOf) := by
+    have := toList_wire J
+    rw [hJl, List.map_map] at this
+    exact this
+  -- K is not empty
+  obtain ⟨k0, t0, hp0, hk0⟩ : ∃ k t, (k :: t) ∈ P ∧ k.isStar = false := by
+    cases P with
+    | nil => exact absurd rfl hne
+    | cons p P' =>
+      obtain ⟨k, t, rfl, hk⟩ := hall p (by simp)
+      exact ⟨k, t, by simp, hk⟩
+  have htl0 : tailsOf k0 P ≠ [] := by
+    intro h
+    have := mem_tailsOf.mpr hp0
+    rw [h] at this
+    cases this
+  obtain ⟨key0, c0, hmem0, _⟩ := hsurj k0 hk0 htl0
+  obtain ⟨n0, r0, hjs⟩ : ∃ n0 r0, JOuts.toIns (JOuts.sortedKids J).sort = .cons n0 r0 := by
+    cases hjs : JOuts.toIns (JOuts.sortedKids J).sort with
+    | nil =>
+      rw [hjs] at hperm
+      have := hperm.length_eq
+      simp only [JIns.toList, List.length_nil, List.length_map] at this
+      have hl : K.toList.length ≠ 0 := by
+        intro h
+        rw [List.length_eq_zero_iff] at h
+        rw [h] at hmem0
+        cases hmem0
+      exact absurd this.symm hl
+    | cons n0 r0 => exact ⟨n0, r0, rfl⟩
+  · rw [hjs, htf, ← hjs]
+    let info : JIn → PStep × List APath := fun n =>
+      ((stepOfKind kind n.path).getD .any, tailsOf ((stepOfKind kind n.path).getD .any) P)
+    have hinfo : ∀ kc ∈ K.toList, info (wireOf kc) = (stp kc.1, tailsOf (stp kc.1) P) := by
+      intro kc hkc
+      obtain ⟨htl, _⟩ := hcells kc hkc
+      obtain ⟨hst, _, hsafe'⟩ := hcell kc.1 kc.2 hkc
+      obtain ⟨h1, _, _⟩ := hsafe' (JsonSafe_head hsafe htl)
+      simp only [info, wireOf, JIn.path, h1, Option.getD_some]
+    have hself : ((self.setTyp m.typ).setIsBlack m.isBlack).Fresh black := by
+      obtain ⟨styp, sisAll, sisBlack, sall, sfdA, sfd, sintA, sints, sstrA, sstrs⟩ := self
+      obtain ⟨h1, h2, h3⟩ := hrecv
+      exact ⟨h1, h2, hb, h3⟩
+    have htyp' : ((self.setTyp m.typ).setIsBlack m.isBlack).typ = m.typ := by
+      obtain ⟨styp, sisAll, sisBlack, sall, sfdA, sfd, sintA, sints, sstrA, sstrs⟩ := self
+      rfl
+    have hmemw : ∀ n ∈ (JOuts.toIns (JOuts.sortedKids J).sort).toList, ∃ kc ∈ K.toList, n = wireOf kc := by
+      intro n hn
+      have := hperm.mem_iff.mp hn
+      rw [List.mem_map] at this
+      obtain ⟨kc, hkc, rfl⟩ := this
+      exact ⟨kc, hkc, rfl⟩
+    obtain ⟨m', hm', hr', ht'⟩ := transferKids_rep (cfg := cfg) (sch := sch) (black := black) (d := d) (kind := kind) info
+      (JOuts.toIns (JOuts.sortedKids J).sort) ((self.setTyp m.typ).setIsBlack m.isBlack) []
+      (Or.inl ⟨rfl, hself⟩) (by intro p hp; cases hp) (by rw [htyp']; exact ht)
+      (by
+        intro n hn
+        obtain ⟨kc, hkc, rfl⟩ := hmemw n hn
+        obtain ⟨htl, cu, hcu, hct, hr, hrt⟩ := hcells kc hkc
+        obtain ⟨hst, hkid, hsafe'⟩ := hcell kc.1 kc.2 hkc
+        obtain ⟨h1, h2, h3⟩ := hsafe' (JsonSafe_head hsafe htl)
+        rw [hinfo kc hkc, htyp']
+        obtain ⟨rc, hrc, htrc⟩ := hrt (JsonSafe_tailsOf _ hsafe)
+        refine ⟨h2, h1, hst, hkind _ hst htl, h3, cu, hcu, hct, htl, ?_⟩
+        intro recv hrv
+        have hmo : mkOf kc.2 = rc := by simp [mkOf, hrc]
+        obtain ⟨c', hc', hrc', htc'⟩ := htrc recv kc.1.toJPath.toRaw hrv
+        exact ⟨c', by simpa [wireOf, hmo] using hc', hrc', htc'⟩)
+      (by intro n _; rfl)
+      (by
+        have hE : (K.toList.map wireOf).Pairwise (fun a b => (info a).1 ≠ (info b).1) := by
+          rw [List.pairwise_map]
+          have hnd : K.toList.Pairwise (fun a b => a.1 ≠ b.1) := by
+            have := hKnd
+            rw [Kids.keys_eq_map, List.nodup_iff_pairwise_ne, List.pairwise_map] at this
+            exact this
+          apply hnd.imp_of_mem
+          intro a b ha hb hab
+          rw [hinfo a ha, hinfo b hb]
+          intro e
+          apply hab
+          apply hinj
+          · rw [Kids.keys_eq_map]; exact List.mem_map.mpr ⟨a, ha, rfl⟩
+          · rw [Kids.keys_eq_map]; exact List.mem_map.mpr ⟨b, hb, rfl⟩
+          · exact e
+        exact (hperm.pairwise_iff (fun {a b} h e => h e.symm)).mpr hE)
+    simp only [List.nil_append] at hr'
+    have hLne : (JOuts.toIns (JOuts.sortedKids J).sort).toList.flatMap (fun n => (info n).2.map ((info n).1 :: ·)) ≠ [] := by
+      rw [hjs]
+      simp only [JIns.toList, List.flatMap_cons]
+      intro h
+      have hn0 : n0 ∈ (JOuts.toIns (JOuts.sortedKids J).sort).toList := by rw [hjs]; simp [JIns.toList]
+      obtain ⟨kc, hkc, rfl⟩ := hmemw n0 hn0
+      obtain ⟨htl, _⟩ := hcells kc hkc
+      rw [hinfo kc hkc] at h
+      have := (List.append_eq_nil_iff.mp h).1
+      simp only [List.map_eq_nil_iff] at this
+      exact htl this
+    refine ⟨m', hm', ?_, by rw [ht', htyp']⟩
+    have hL : AllSpec ((JOuts.toIns (JOuts.sortedKids J).sort).toList.flatMap (fun n => (info n).2.map ((info n).1 :: ·))) := by
+      intro p hp
+      rw [List.mem_flatMap] at hp
+      obtain ⟨n, hn, hp⟩ := hp
+      rw [List.mem_map] at hp
+      obtain ⟨t, _, rfl⟩ := hp
+      obtain ⟨kc, hkc, rfl⟩ := hmemw n hn
+      rw [hinfo kc hkc]
+      exact ⟨_, t, rfl, (hcell kc.1 kc.2 hkc).1⟩
+    apply (hr'.rep hLne).congr_spec hL hall hne
+    intro k hk
+    by_cases hex : ∃ n ∈ (JOuts.toIns (JOuts.sortedKids J).sort).toList, (info n).1 = k
+    · obtain ⟨n, hn, rfl⟩ := hex
+      have hpw : (JOuts.toIns (JOuts.sortedKids J).sort).toList.Pairwise (fun a b => (info a).1 ≠ (info b).1) := by
+        have hE : (K.toList.map wireOf).Pairwise (fun a b => (info a).1 ≠ (info b).1) := by
+          rw [List.pairwise_map]
+          have hnd : K.toList.Pairwise (fun a b => a.1 ≠ b.1) := by
+            have := hKnd
+            rw [Kids.keys_eq_map, List.nodup_iff_pairwise_ne, List.pairwise_map] at this
+            exact this
+          apply hnd.imp_of_mem
+          intro a b ha hb hab
+          rw [hinfo a ha, hinfo b hb]
+          intro e
+          apply hab
+          apply hinj
+          · rw [Kids.keys_eq_map]; exact List.mem_map.mpr ⟨a, ha, rfl⟩
+          · rw [Kids.keys_eq_map]; exact List.mem_map.mpr ⟨b, hb, rfl⟩
+          · exact e
+        exact (hperm.pairwise_iff (fun {a b} h e => h e.symm)).mpr hE
+      rw [tailsOf_flatMap_same (fun n => (info n).1) (fun n => (info n).2) _ n hn hpw]
+    · have hno' : ∀ n ∈ (JOuts.toIns (JOuts.sortedKids J).sort).toList, (info n).1 ≠ k := by
+        intro n hn e; exact hex ⟨n, hn, e⟩
+      rw [tailsOf_flatMap_other (fun n => (info n).1) (fun n => (info n).2) k _ hno']
+      cases hcon : tailsOf k P with
+      | nil => rfl
+      | cons t0' l0' =>
+      exfalso
+      have htl : tailsOf k P ≠ [] := by rw [hcon]; simp
+      obtain ⟨key, c, hmem, hstp⟩ := hsurj k hk htl
+      have hw : wireOf (key, c) ∈ (JOuts.toIns (JOuts.sortedKids J).sort).toList :=
+        hperm.mem_iff.mpr (List.mem_map.mpr ⟨(key, c), hmem, rfl⟩)
+      apply hno' _ hw
+      rw [hinfo (key, c) hmem]
+      exact hstp
+
+
+theorem transferFrom_cons {cfg : Sites} {self : Mask} {raw : JRaw} {typ : Ft} {black : Bool} {n : JIn} {r : JIns}
+    (ht : typ ≠ .invalid) :
+    transferFrom cfg self (.mk raw typ black (.cons n r)) =
+      transferKids cfg (match typ with | .struct => 0 | .list | .intMap => 1 | .strMap => 2 | _ => 3)
+        ((self.setTyp typ).setIsBlack black) (.cons n r) := by
+  rw [transferFrom]
+  simp only [ht, ↓reduceIte]
+  cases typ <;> first | rfl | exact absurd rfl ht
+
+theorem RT_spec {cfg : Sites} {sch : Schema} {black : Bool} {d : Ty} {m : Mask} {P : List APath}
+    (ht : m.typ ≠ .invalid) (hb : m.isBlack = black) (hne : P ≠ []) (hall : AllSpec P)
+    (hia : m.isAll = false) (hfd : m.fdA = true ∨ m.fd = .nil)
+    (hkind : ∀ k, k.isStar = false → tailsOf k P ≠ [] → kindOK m.typ k = true)
+    (hnd : m.fd.wfI ∧ m.ints.wfI ∧ m.strs.wfS)
+    (hno : ∀ k, k.isStar = false → tailsOf k P = [] → m.kid k = .none)
+    (hyes : ∀ k, k.isStar = false → tailsOf k P ≠ [] →
+         ∃ c cu, m.kid k = .some c ∧ stepCur sch m.typ d k = some cu ∧ c.typ = cu.1)
+    (hrec : ∀ k c cu, m.kid k = .some c → stepCur sch m.typ d k = some cu → tailsOf k P ≠ [] →
+         Rep sch black cu.2 c (tailsOf k P))
+    (ih : ∀ k c cu, m.kid k = .some c → stepCur sch m.typ d k = some cu → tailsOf k P ≠ [] →
+         RT cfg sch black cu.2 c (tailsOf k P)) :
+    RT cfg sch black d m P := by
+  -- some path starts with a specific step, which fixes the kind of the node
+  obtain ⟨k0, t0, hp0, hk0⟩ : ∃ k t, (k :: t) ∈ P ∧ k.isStar = false := by
+    cases P with
+    | nil => exact absurd rfl hne
+    | cons p P' =>
+      obtain ⟨k, t, rfl, hk⟩ := hall p (by simp)
+      exact ⟨k, t, by simp, hk⟩
+  have htl0 : tailsOf k0 P ≠ [] := by
+    intro h
+    have := mem_tailsOf.mpr hp0
+    rw [h] at this
+    cases this
+  have hk0k := hkind k0 hk0 htl0
+  obtain ⟨c0, cu0, hkid0, _, _⟩ := hyes k0 hk0 htl0
+  obtain ⟨typ, isAll, isBlack, all, fdA, fd, intA, ints, strA, strs⟩ := m
+  simp only [Mask.typ, Mask.isAll, Mask.isBlack, Mask.fdA, Mask.fd, Mask.ints, Mask.strs] at ht hb hia hfd hkind hnd hk0k
+  subst hia
+  cases typ with
+  | invalid => exact absurd rfl ht
+  | scalar => cases k0 <;> simp_all [kindOK, PStep.isStar]
+  | struct =>
+    have hk0f : ∃ id, k0 = .field id := by cases k0 <;> simp_all [kindOK, PStep.isStar]
+    obtain ⟨id0, rfl⟩ := hk0f
+    have hfdA : fdA = true := by
+      cases hfd with
+      | inl h => exact h
+      | inr h => simp [Mask.kid, Mask.fd, h, Kids.get] at hkid0
+    subst hfdA
+    apply RT_spec_core (m := Mask.mk .struct false isBlack all true fd intA ints strA strs) fd 0 (fun key => match key with | .i n => .field n | .s _ => .any) ht hb hne hall hkind hnd.1.1 hno hyes hrec ih
+    · intro key c hmem
+      have hkey : key ∈ fd.keys := by rw [Kids.keys_eq_map]; exact List.mem_map.mpr ⟨(key, c), hmem, rfl⟩
+      obtain ⟨n, rfl⟩ := hnd.1.2 key hkey
+      refine ⟨rfl, Kids.get_of_mem hnd.1.1 hmem, ?_⟩
+      intro hs
+      simp only [jsonSafeStep, Bool.and_eq_true, Bool.or_eq_true, Bool.not_eq_true', decide_eq_true_eq] at hs
+      refine ⟨by simp [stepOfKind, Key.toJPath, JPath.toRaw, hs.1], rfl, ?_⟩
+      simp only [preOfKind, siteHead]
+      rcases hs.2 with h | h
+      · simp [h]
+      · have : ¬ n < 0 := by omega
+        simp [this]
+    · intro key key' hk hk' he
+      obtain ⟨n, rfl⟩ := hnd.1.2 key hk
+      obtain ⟨n', rfl⟩ := hnd.1.2 key' hk'
+      simp only [PStep.field.injEq] at he
+      rw [he]
+    · intro k hk htl
+      have hkk := hkind k hk htl
+      have : ∃ id, k = .field id := by cases k <;> simp_all [kindOK, PStep.isStar]
+      obtain ⟨id, rfl⟩ := this
+      obtain ⟨c, cu, hkid, _, _⟩ := hyes _ hk htl
+      exact ⟨.i id, c, Kids.mem_of_get hkid, rfl⟩
+    · intro J hJ
+      unfold marshalKids
+      simp [hJ]
+    · intro self raw n r
+      exact transferFrom_cons ht
+  | list =>
+    have hk0f : ∃ id, k0 = .idx id := by cases k0 <;> simp_all [kindOK, PStep.isStar]
+    obtain ⟨id0, rfl⟩ := hk0f
+    apply RT_spec_core (m := Mask.mk .list false isBlack all fdA fd intA ints strA strs) ints 1 (fun key => match key with | .i n => .idx n | .s _ => .any) ht hb hne hall hkind hnd.2.1.1 hno hyes hrec ih
+    · intro key c hmem
+      have hkey : key ∈ ints.keys := by rw [Kids.keys_eq_map]; exact List.mem_map.mpr ⟨(key, c), hmem, rfl⟩
+      obtain ⟨n, rfl⟩ := hnd.2.1.2 key hkey
+      refine ⟨rfl, Kids.get_of_mem hnd.2.1.1 hmem, ?_⟩
+      intro hs
+      simp only [jsonSafeStep] at hs
+      exact ⟨by simp [stepOfKind, Key.toJPath, JPath.toRaw, hs], rfl, rfl⟩
+    · intro key key' hk hk' he
+      obtain ⟨n, rfl⟩ := hnd.2.1.2 key hk
+      obtain ⟨n', rfl⟩ := hnd.2.1.2 key' hk'
+      simp only [PStep.idx.injEq] at he
+      rw [he]
+    · intro k hk htl
+      have hkk := hkind k hk htl
+      have : ∃ id, k = .idx id := by cases k <;> simp_all [kindOK, PStep.isStar]
+      obtain ⟨id, rfl⟩ := this
+      obtain ⟨c, cu, hkid, _, _⟩ := hyes _ hk htl
+      exact ⟨.i id, c, Kids.mem_of_get hkid, rfl⟩
+    · intro J hJ
+      unfold marshalKids
+      simp [hJ]
+    · intro self raw n r
+      exact transferFrom_cons ht
+  | intMap =>
+    have hk0f : ∃ id, k0 = .idx id := by cases k0 <;> simp_all [kindOK, PStep.isStar]
+    obtain ⟨id0, rfl⟩ := hk0f
+    apply RT_spec_core (m := Mask.mk .intMap false isBlack all fdA fd intA ints strA strs) ints 1 (fun key => match key with | .i n => .idx n | .s _ => .any) ht hb hne hall hkind hnd.2.1.1 hno hyes hrec ih
+    · intro key c hmem
+      have hkey : key ∈ ints.keys := by rw [Kids.keys_eq_map]; exact List.mem_map.mpr ⟨(key, c), hmem, rfl⟩
+      obtain ⟨n, rfl⟩ := hnd.2.1.2 key hkey
+      refine ⟨rfl, Kids.get_of_mem hnd.2.1.1 hmem, ?_⟩
+      intro hs
+      simp only [jsonSafeStep] at hs
+      exact ⟨by simp [stepOfKind, Key.toJPath, JPath.toRaw, hs], rfl, rfl⟩
+    · intro key key' hk hk' he
+      obtain ⟨n, rfl⟩ := hnd.2.1.2 key hk
+      obtain ⟨n', rfl⟩ := hnd.2.1.2 key' hk'
+      simp only [PStep.idx.injEq] at he
+      rw [he]
+    · intro k hk htl
+      have hkk := hkind k hk htl
+      have : ∃ id, k = .idx id := by cases k <;> simp_all [kindOK, PStep.isStar]
+      obtain ⟨id, rfl⟩ := this
+      obtain ⟨c, cu, hkid, _, _⟩ := hyes _ hk htl
+      exact ⟨.i id, c, Kids.mem_of_get hkid, rfl⟩
+    · intro J hJ
+      unfold marshalKids
+      simp [hJ]
+    · intro self raw n r
+      exact transferFrom_cons ht
+  | strMap =>
+    have hk0f : ∃ id, k0 = .key id := by cases k0 <;> simp_all [kindOK, PStep.isStar]
+    obtain ⟨id0, rfl⟩ := hk0f
+    apply RT_spec_core (m := Mask.mk .strMap false isBlack all fdA fd intA ints strA strs) strs 2 (fun key => match key with | .s b => .key b | .i _ => .any) ht hb hne hall hkind hnd.2.2.1 hno hyes hrec ih
+    · intro key c hmem
+      have hkey : key ∈ strs.keys := by rw [Kids.keys_eq_map]; exact List.mem_map.mpr ⟨(key, c), hmem, rfl⟩
+      obtain ⟨n, rfl⟩ := hnd.2.2.2 key hkey
+      refine ⟨rfl, Kids.get_of_mem hnd.2.2.1 hmem, ?_⟩
+      intro hs
+      simp only [jsonSafeStep, bne_iff_ne, ne_eq] at hs
+      exact ⟨by simp [stepOfKind, Key.toJPath, JPath.toRaw], by simp [Key.toJPath, JPath.toRaw, hs], rfl⟩
+    · intro key key' hk hk' he
+      obtain ⟨n, rfl⟩ := hnd.2.2.2 key hk
+      obtain ⟨n', rfl⟩ := hnd.2.2.2 key' hk'
+      simp only [PStep.key.injEq] at he
+      rw [he]
+    · intro k hk htl
+      have hkk := hkind k hk htl
+      have : ∃ id, k = .key id := by cases k <;> simp_all [kindOK, PStep.isStar]
+      obtain ⟨id, rfl⟩ := this
+      obtain ⟨c, cu, hkid, _, _⟩ := hyes _ hk htl
+      exact ⟨.s id, c, Kids.mem_of_get hkid, rfl⟩
+    · intro J hJ
+      unfold marshalKids
+      simp [hJ]
+    · intro self raw n r
+      exact transferFrom_cons ht
+
+/-- every node of a trie satisfying `Rep` survives MarshalJSON / UnmarshalJSON -/
+theorem roundtrip_rep {cfg : Sites} {sch : Schema} {black : Bool} {d : Ty} {m : Mask} {P : List APath}
+    (h : Rep sch black d m P) : RT cfg sch black d m P := by
+  induction h with
+  | leaf ht hb hne hall hia hal hnk => exact RT_leaf ht hb hne hall hia hal
+  | star s a cu ht hb hne hs hall hia hal hnk hcu hat hr ih => exact RT_star s a cu ht hb hne hs hall hia hal hnk hcu hat hr ih
+  | spec ht hb hne hall hia hhc hfd hkind hnd hno hyes hrec ih =>
+    exact RT_spec ht hb hne hall hia hfd hkind hnd hno hyes hrec ih
+
+/-- MarshalJSON then UnmarshalJSON of a represented mask gives a mask representing the same path set -/
+theorem json_roundtrip_rep {cfg : Sites} {sch : Schema} {black : Bool} {d : Ty} {m : Mask} {P : List APath}
+    (h : Rep sch black d m P) (hsafe : JsonSafe cfg P = true) :
+    ∃ j, marshal m = .ok j ∧ ∃ m', unmarshal cfg (some j.toIn) = .ok m' ∧ Rep sch black d m' P := by
+  obtain ⟨r, hr, htr⟩ := roundtrip_rep (cfg := cfg) h hsafe
+  obtain ⟨m', hm', hrm', _⟩ := htr Mask.zero JPath.root.toRaw Mask.zero_recv
+  refine ⟨(JOut.mk .root m.typ m.isBlack r.1 r.2).sorted, ?_, m', ?_, hrm'⟩
+  · simp only [marshal, hr, Res.ok_bind]
+  · simp only [unmarshal, JOut.sorted, JOut.toIn, JIn.path]
+    exact hm'
+
+
 end FieldMask
